@@ -250,6 +250,67 @@ func checkC06(r *kit.Run) {
 			}
 		}
 	}
+	// ---- integer division on a shared operand ----
+	_, sts = run("shared")
+	bs2 := append(bs, new(big.Int).Lsh(big.NewInt(1), 127), new(big.Int).Exp(big.NewInt(10), big.NewInt(40), nil), big.NewInt(1000))
+	for _, st := range sts {
+		var ops []string
+		for _, o := range tlaval.AsSeq(st["op"]) {
+			ops = append(ops, tlaval.AsStr(o))
+		}
+		i := tlaval.AsInt(tlaval.AsRec(st["a"])["n"])
+		j := tlaval.AsInt(tlaval.AsRec(st["b"])["n"])
+		for _, B := range bs2 {
+			for _, neg := range []bool{false, true} {
+				total++
+				nontrivial++
+				x := new(big.Int).Add(B, big.NewInt(int64(i)))
+				if neg {
+					x.Neg(x)
+				}
+				y := big.NewInt(int64(j))
+				var src strings.Builder
+				fmt.Fprintf(&src, "x: %s\ny: %d\n", x, j)
+				for k, o := range ops {
+					fmt.Fprintf(&src, "r%d: %s(x, y)\n", k, o)
+				}
+				v := ctx.CompileString(src.String())
+				for k, o := range ops {
+					var want big.Int
+					switch o {
+					case "div":
+						want.Div(x, y)
+					case "mod":
+						want.Mod(x, y)
+					case "quo":
+						want.Quo(x, y)
+					case "rem":
+						want.Rem(x, y)
+					}
+					rv := v.LookupPath(cue.ParsePath(fmt.Sprintf("r%d", k)))
+					var z big.Int
+					var ierr error
+					panicked := ""
+					func() {
+						defer func() {
+							if p := recover(); p != nil {
+								panicked = fmt.Sprint(p)
+							}
+						}()
+						_, ierr = rv.Int(&z)
+					}()
+					if sig := len(strings.TrimLeft(want.String(), "-")); sig > 34 && (panicked != "" || ierr != nil || z.Cmp(&want) != 0) {
+						r.Violation("class int-result-beyond-34-digits", fmt.Sprintf("%s(%s, %d) = %v, exact integer arithmetic gives %s", o, x, j, rv, &want), map[string]any{"source": src.String()})
+						continue
+					}
+					if panicked != "" || ierr != nil || z.Cmp(&want) != 0 {
+						r.Violation(fmt.Sprintf("shared intdiv %v B=%s%d bits i=%d j=%d use %d", ops, map[bool]string{true: "-", false: ""}[neg], B.BitLen(), i, j, k),
+							fmt.Sprintf("use %d of the shared operand: %s(x, y) = %v with x = %s, y = %d; the defining identity gives %s (%v %s)", k, o, rv, x, j, &want, ierr, panicked), map[string]any{"source": src.String()})
+					}
+				}
+			}
+		}
+	}
 	// ---- literal spellings ----
 	_, sts = run("literal")
 	for si, st := range sts {
@@ -332,5 +393,5 @@ func checkC06(r *kit.Run) {
 	r.Set("distinct_nontrivial", nontrivial)
 	r.Set("canaries_rejected", int(caught))
 	r.Set("exhaustive", true)
-	r.Set("rule", "every state of CueArith.tla: (operator, operand pair) over 24 small numbers with the model's kind / error / exact fraction; (B+i) op (B+j) for i, j in -2..2 instantiated at +-2^63, +-2^64, +-10^34, +-10^400; every structural literal spelling; non-trivial = cases that are not required errors")
+	r.Set("rule", "every state of CueArith.tla: (operator, operand pair) over 24 small numbers with the model's kind / error / exact fraction; (B+i) op (B+j) for i, j in -2..2 instantiated at +-2^63, +-2^64, +-10^34, +-10^400; every sequence of three integer divisions on one shared operand +-(B+i) (also B = 2^127, 10^40, 1000) by -7, -2, 3, 7; every structural literal spelling; non-trivial = cases that are not required errors")
 }
